@@ -72,19 +72,25 @@ func panicRules(roots []string) func(p *Prog, r *Report) {
 
 func init() {
 	register("C01",
-		"Structural clauses of 'XML decodes to the documented Map under all options' decided on xmlToMapParser: INFL.cover (attribute keys depend on attrPrefix, lowerCase, snakeCaseKeys and the attribute name; element keys on lowerCase/snakeCaseKeys; text on trimRunes and xmlEscapeCharsDecoder and passes through cast with the decoder's flag; text-key choice on decodeSimpleValuesAsMap; _seq only under includeTagSeqNum), INFL.castflag (structure independent of the cast flag), TABLE.keys (shared key variables, no literals), DECODE.sibling (every decoded child is stored on every path; repeated siblings are append(existing, new)), PAIR.seqnum (the _seq number is a running counter advanced with every child), PANIC.nil/assert/idx on the decoder. Not decided: equality of the produced Map with the documented one (trimming results, collisions, case-folding values)."+levelNote,
+		"Structural clauses of 'XML decodes to the documented Map under all options' decided on xmlToMapParser: INFL.cover (attribute keys depend on attrPrefix, lowerCase, snakeCaseKeys and the attribute name; element keys on lowerCase/snakeCaseKeys; text on trimRunes and xmlEscapeCharsDecoder and passes through cast with the decoder's flag; text-key choice on decodeSimpleValuesAsMap; _seq only under includeTagSeqNum), INFL.castflag (structure independent of the cast flag), TABLE.keys (shared key variables, no literals), DECODE.sibling (every decoded child is stored on every path; repeated siblings are append(existing, new)), PAIR.seqnum (the _seq number is a running counter advanced with every child), OPT.setter + PAIR.derived for the options the decoder reads (each setter stores what its documentation says for no, one and more arguments; trimRunes follows disableTrimWhiteSpace), TEXT.nonempty (character data is stored only under a non-emptiness test of the trimmed text that is stored: white space between children never becomes or overwrites a text value), FOLD.total (snake-case folding replaces every hyphen), PANIC.nil/assert/idx on the decoder. Not decided: equality of the produced Map with the documented one (trimming results, collisions, case-folding values)."+levelNote,
 		[]string{"documented option semantics transcribed in rules_infl.go"},
 		ruleInflCover,
 		func(p *Prog, r *Report) { ruleInflCastFlag(p, r) },
 		ruleTableKeys,
 		func(p *Prog, r *Report) { ruleDecodeSibling(p, r, []string{"mxj.xmlToMapParser"}) },
 		ruleSeqCover, ruleCastParsers, rulePairSeqNum,
+		ruleOptSetterFor([]string{"mxj.attrPrefix", "mxj.lowerCase", "mxj.snakeCaseKeys", "mxj.decodeSimpleValuesAsMap", "mxj.includeTagSeqNum",
+			"mxj.xmlEscapeCharsDecoder", "mxj.disableTrimWhiteSpace", "mxj.castToInt", "mxj.castToFloat", "mxj.castToBool", "mxj.castNanInf", "mxj.checkTagToSkip"}),
+		rulePairDerived,
+		func(p *Prog, r *Report) { ruleFoldTotal(p, r, []string{"mxj.xmlToMapParser"}) },
+		func(p *Prog, r *Report) { ruleTextNonEmpty(p, r, []string{"mxj.xmlToMapParser"}) },
 		panicRules(grpMapDecode))
 
 	register("C02",
-		"Structural agreement of decoder and encoder conventions: TABLE.keys (both halves read the shared key variables), PAIR.derived (lenAttrPrefix tracks attrPrefix), TABLE.partition (attribute / text / element partition of a map's keys is the same predicate in both scans), ESC.flow (every Map value reaches the output escaped unless xmlEscapeChars is known false), TABLE.escape (entity table, order, no unescaped early return), ORDER (sorted emission), WALK.arms (every list member and collected child is encoded), TAGS.protocol (path-sensitive typestate of the Map element encoder: on every path feasible for a decoder-shaped value the buffer writes follow start tag, attributes, close, content, end tag / self-close; start and end tag name the same parameter; no successful return leaves an open element), TAGS.content (on no path is the element completed while its text entry or scalar value — string, number or boolean, as float/bool casting produces — has not been written). Not decided: equality of the second decode with the first; well-formedness of names and of the sequence encoder's output."+levelNote,
+		"Structural agreement of decoder and encoder conventions: TABLE.keys (both halves read the shared key variables), FOLD.total (the decoder's snake-case folding replaces every hyphen, so it is idempotent: the names the encoder writes decode to themselves), PAIR.derived (lenAttrPrefix tracks attrPrefix), TABLE.partition (attribute / text / element partition of a map's keys is the same predicate in both scans), ESC.flow (every Map value reaches the output escaped unless xmlEscapeChars is known false), TABLE.escape (entity table, order, no unescaped early return), ORDER (sorted emission), WALK.arms (every list member and collected child is encoded), TAGS.protocol (path-sensitive typestate of the Map element encoder: on every path feasible for a decoder-shaped value the buffer writes follow start tag, attributes, close, content, end tag / self-close; start and end tag name the same parameter; no successful return leaves an open element), TAGS.content (on no path is the element completed while its text entry or scalar value — string, number or boolean, as float/bool casting produces — has not been written). Not decided: equality of the second decode with the first; well-formedness of names and of the sequence encoder's output."+levelNote,
 		nil,
 		ruleTagProtocol, func(p *Prog, r *Report) { ruleTagContent(p, r, "map") }, ruleTableKeys,
+		func(p *Prog, r *Report) { ruleFoldTotal(p, r, []string{"mxj.xmlToMapParser"}) },
 		func(p *Prog, r *Report) { ruleRenderLossless(p, r, []string{"mxj.marshalMapToXmlIndent"}) }, rulePairDerived, ruleTablePartition, ruleEsc, ruleTableEscape, ruleOptExcl,
 		func(p *Prog, r *Report) { ruleOrder(p, r, grpMapEncode) },
 		func(p *Prog, r *Report) { ruleWalkArms(p, r, []string{"mxj.marshalMapToXmlIndent"}) })
@@ -104,13 +110,14 @@ func init() {
 		})
 
 	register("C04",
-		"Structural clauses of the MapSeq round trip: PAIR.seq (every token kind gets a fresh sequence number that is advanced in the same block; attributes take their index; the child collection skips exactly the attribute and sequence keys), ORDER on the sequence encoder (attributes and children are sorted by sequence number before any write), DECODE.sibling and WALK.arms for the sequence codec, SHAPE.seq (decoder output has the shape the encoder asserts), PANIC.* on both halves, WRAP.compose for BeautifyXml, TAGS.seqprotocol (token-level typestate of the sequence encoder: < name, blank name = quoted value, then either > content </ name > or />, comment / directive / processing-instruction forms; no successful return leaves an open element), TAGS.content (the text entry and the scalar value are written on every path that completes the element, for strings and for the numbers / booleans casting produces), OWN.private (the encoded document is not reachable from package state), SEQ.unwind (every member of a list of same-named children is a sort entry of its own), SEQ.result (the map the decoder returns for an element is written only when the element ends, so nothing collected for it is dropped), RENDER.lossless. Not decided: token-stream equality."+levelNote,
+		"Structural clauses of the MapSeq round trip: PAIR.seq (every token kind gets a fresh sequence number that is advanced in the same block; attributes take their index; the child collection skips exactly the attribute and sequence keys), ORDER on the sequence encoder (attributes and children are sorted by sequence number before any write), DECODE.sibling and WALK.arms for the sequence codec, SHAPE.seq (decoder output has the shape the encoder asserts), PANIC.* on both halves, WRAP.compose for BeautifyXml, TAGS.seqprotocol (token-level typestate of the sequence encoder: < name, blank name = quoted value, then either > content </ name > or />, comment / directive / processing-instruction forms; no successful return leaves an open element), TAGS.content (the text entry and the scalar value are written on every path that completes the element, for strings and for the numbers / booleans casting produces), OWN.private (the encoded document is not reachable from package state), SEQ.unwind (every member of a list of same-named children is a sort entry of its own), SEQ.result (the map the decoder returns for an element is written only when the element ends, so nothing collected for it is dropped), SEQ.types (every typed read of a '#seq' entry accepts int and float64), TEXT.nonempty (character data is recorded only under a non-emptiness test of the trimmed text that is stored, so indentation never replaces an element's text), RENDER.lossless. Not decided: token-stream equality."+levelNote,
 		nil,
 		ruleTagProtocolSeq, func(p *Prog, r *Report) { ruleTagContent(p, r, "seq") },
 		func(p *Prog, r *Report) {
 			ruleOwnPrivate(p, r, []string{"mxj.MapSeq.Xml", "mxj.MapSeq.XmlIndent", "mxj.BeautifyXml"})
 		},
-		rulePairSeq, ruleSeqUnwind, ruleSeqResult,
+		rulePairSeq, ruleSeqUnwind, ruleSeqResult, ruleSeqTypes,
+		func(p *Prog, r *Report) { ruleTextNonEmpty(p, r, []string{"mxj.xmlSeqToMapParser"}) },
 		func(p *Prog, r *Report) { ruleRenderLossless(p, r, []string{"mxj.mapToXmlSeqIndent"}) },
 		func(p *Prog, r *Report) { ruleOrder(p, r, concat(grpSeqEncode, grpBeautify)) },
 		func(p *Prog, r *Report) { ruleDecodeSibling(p, r, []string{"mxj.xmlSeqToMapParser"}) },
@@ -121,7 +128,7 @@ func init() {
 		panicRules(concat(grpSeqDecode, grpSeqEncode, grpBeautify)))
 
 	register("C05",
-		"Structural clauses of 'special characters survive; invalid output is an error': ESC.flow (value sinks of both encoders), TABLE.escape, OPT.excl (encoder- and decoder-side escaping never both on), VALID.coupling (each of the four encoders validates the very bytes it returns, under xmlCheckIsValid), ERR.path on the four encoders (an encoder or validator error always reaches the caller), TAGS.protocol / TAGS.seqprotocol (the markup the two element encoders write around the escaped values is a properly nested start tag / attributes / content / end tag sequence on every path). Not decided: exact value recovery, absence of double escaping for already-escaped input, well-formedness of names."+levelNote,
+		"Structural clauses of 'special characters survive; invalid output is an error': ESC.flow (value sinks of both encoders), TABLE.escape, OPT.excl (encoder- and decoder-side escaping never both on), VALID.coupling (each of the four encoders validates the very bytes it returns, under xmlCheckIsValid, to their end, with a decoder that keeps the default strict settings and reads a copy, not the output buffer), ERR.path on the four encoders (an encoder or validator error always reaches the caller), TAGS.protocol / TAGS.seqprotocol (the markup the two element encoders write around the escaped values is a properly nested start tag / attributes / content / end tag sequence on every path). Not decided: exact value recovery, absence of double escaping for already-escaped input, well-formedness of names."+levelNote,
 		nil,
 		ruleTagProtocol, ruleTagProtocolSeq, ruleEsc, ruleTableEscape, ruleOptExcl, ruleValidCoupling,
 		func(p *Prog, r *Report) {
@@ -136,7 +143,7 @@ func init() {
 		},
 		ruleTableNoRewrite,
 		func(p *Prog, r *Report) { ruleInflCoverJson(p, r) },
-		ruleJsonDecoder,
+		ruleJsonDecoderFor([]string{"mxj.NewMapJson", "mxj.NewMapJsonReader", "mxj.NewMapJsonReaderRaw", "mxj.HandleJsonReader", "mxj.HandleJsonReaderRaw", "mxj.NewMapsFromJsonFile", "mxj.NewMapsFromJsonFileRaw"}),
 		func(p *Prog, r *Report) {
 			ruleWrapCompose(p, r, []wrapSpec{{"mxj.Map.Copy", []string{"mxj.Map.Json", "mxj.NewMapJson"}, false}})
 		},
@@ -146,7 +153,7 @@ func init() {
 		})
 
 	register("C07",
-		"Structural clauses of ValuesForPath exactness: PAIR.count (result is ret[:cnt] with cnt == len(ret)), WALK.progress (each recursion consumes exactly one segment; values are appended only when the path is exhausted), WALK.collect (collecting helpers are not recursive), ALIAS.reuse (no result buffer shares the array of a slice still being ranged over faster than it is consumed), WRAP.compose for ValueForPath / ValueForPathString / Exists (first value / non-empty of the plural form), PANIC.idx/assert on the indexed-path wrapper and the path parser, PRESENCE.commaok (whether a node has a key is decided by the comma-ok lookup, never by comparing the value with nil: null is a value), ITER.fresh (each parsed path segment is built from that segment only: no index or array flag left over from the previous one). Not decided: that the returned multiset is the denoted one."+levelNote,
+		"Structural clauses of ValuesForPath exactness: PAIR.count (result is ret[:cnt] with cnt == len(ret)), WALK.progress (each recursion consumes exactly one segment; values are appended only when the path is exhausted), WALK.collect (collecting helpers are not recursive), ALIAS.reuse (no result buffer shares the array of a slice still being ranged over faster than it is consumed), WRAP.compose for ValueForPath / ValueForPathString / Exists (first value / non-empty of the plural form), PANIC.idx/assert on the indexed-path wrapper and the path parser, PRESENCE.commaok (whether a node has a key is decided by the comma-ok lookup, never by comparing the value with nil: null is a value), ITER.fresh (each parsed path segment is built from that segment only: no index or array flag left over from the previous one), WALK.lastindex (the indexed walker tests the type of a selected value only where segments remain: a final indexed step returns its member whatever its type). Not decided: that the returned multiset is the denoted one."+levelNote,
 		nil,
 		func(p *Prog, r *Report) { rulePairCount(p, r, []string{"mxj.Map.oldValuesForPath"}) },
 		func(p *Prog, r *Report) { ruleIterFresh(p, r, []string{"mxj.parsePath"}) },
@@ -159,6 +166,9 @@ func init() {
 		},
 		func(p *Prog, r *Report) { ruleWalkProgress(p, r, []string{"mxj.valuesForKeyPath"}) },
 		func(p *Prog, r *Report) { ruleWalkCollect(p, r, []string{"mxj.valuesForKeyPath"}) },
+		func(p *Prog, r *Report) {
+			ruleWalkLastIndex(p, r, p.scopeFuncs(r, "WALK.lastindex", []string{"mxj.Map.ValuesForPath"}))
+		},
 		func(p *Prog, r *Report) {
 			ruleAliasReuse(p, r, p.scopeFuncs(r, "ALIAS.reuse", []string{"mxj.Map.ValuesForPath"}))
 		},
@@ -197,12 +207,15 @@ func init() {
 		panicRules([]string{"mxj.Map.ValuesForKey", "mxj.Map.ValueForKey", "mxj.Map.PathsForKey", "mxj.Map.PathForKeyShortest"}))
 
 	register("C09",
-		"Structural clauses of LeafNodes: WALK.total (getLeafNodes visits every entry and member; skips depend only on the no-attribute option and the attribute prefix; the scalar arm appends exactly one LeafNode carrying the node), WRAP.compose + FWD (LeafPaths/LeafValues are projections of LeafNodes and forward their option), PANIC.idx/assert on the walker, ATTR.guard (a key is tested against the attribute prefix only where the prefix is known non-empty), PRESENCE.commaok on the walker and on the path resolution it must agree with (a null leaf is a value). Not decided: that each path resolves to exactly its value."+levelNote,
+		"Structural clauses of LeafNodes: WALK.total (getLeafNodes visits every entry and member; skips depend only on the no-attribute option and the attribute prefix; the scalar arm appends exactly one LeafNode carrying the node), WRAP.compose + FWD (LeafPaths/LeafValues are projections of LeafNodes and forward their option), PANIC.idx/assert on the walker, ATTR.guard (a key is tested against the attribute prefix only where the prefix is known non-empty), PRESENCE.commaok on the walker and on the path resolution it must agree with (a null leaf is a value), WALK.lastindex (a path ending in an indexed step resolves to the member whatever its type). Not decided: that each path resolves to exactly its value."+levelNote,
 		nil,
 		func(p *Prog, r *Report) {
 			ruleWalkTotal(p, r, []walkerSpec{{"mxj.getLeafNodes", []string{"param:noattr", "load(mxj.attrPrefix)"}}})
 		},
 		ruleWalkLeaf,
+		func(p *Prog, r *Report) {
+			ruleWalkLastIndex(p, r, p.scopeFuncs(r, "WALK.lastindex", []string{"mxj.Map.ValuesForPath"}))
+		},
 		func(p *Prog, r *Report) {
 			ruleAttrGuard(p, r, p.scopeFuncs(r, "ATTR.guard", []string{"mxj.Map.LeafNodes"}), "leaf walker")
 		},
@@ -226,6 +239,7 @@ func init() {
 		"Structural clauses of UpdateValuesForPath: PAIR.update (writes only under the update key or the last segment tested equal to it; the stored value is the new value or a list rebuilt from old members and the new value; per block the counter increments equal the replacements; the rebuilt list is stored only when something was replaced; the sub-key conditions guarding a write are evaluated on the node that is written), PRESENCE.commaok (a member holding null under the key is present), WALK.progress (one segment per recursion, hand-over to the leaf function exactly at the last segment), INFL.filter, INFL.cover (new-value strings are split on fieldSep). Not decided: that navigation addresses the same nodes as ValuesForPath; the post-state query clause."+levelNote,
 		nil,
 		rulePairUpdate,
+		func(p *Prog, r *Report) { ruleWalkReentry(p, r, p.scopeFuncs(r, "WALK.reentry", []string{"mxj.Map.UpdateValuesForPath"})) },
 		func(p *Prog, r *Report) {
 			in := map[string]bool{}
 			for _, f := range p.scopeFuncs(r, "PRESENCE.commaok", []string{"mxj.Map.UpdateValuesForPath"}) {
@@ -242,9 +256,9 @@ func init() {
 		panicRules([]string{"mxj.Map.UpdateValuesForPath"}))
 
 	register("C11",
-		"Structural clauses of SetValueForPath / Remove / RenameKey: PAIR.atomic (exactly the documented writes, none in a loop, no error return reachable after a write, the renamed value moved unchanged then the old key deleted on the same parent, collision test is a presence test), WALK.progress for the parent walker (parent returned by position, recursion on the rest of the path), PANIC.assert/idx/nil, PRESENCE.commaok. Not decided: the frame condition as a whole; refusal to overwrite at top level (a string-value fact)."+levelNote,
+		"Structural clauses of SetValueForPath / Remove / RenameKey: PAIR.atomic (exactly the documented writes, none in a loop, no error return reachable after a write, the renamed value moved unchanged then the old key deleted on the same parent, collision test is a presence test), WALK.progress for the parent walker (parent returned by position, recursion on the rest of the path; a value that is not a map ends the walk with an error), PATH.segments (the path is taken apart at its last separator: the deleted / moved key is the last segment, the sibling that forbids a rename is looked up under the path without its last segment), PANIC.assert/idx/nil, PRESENCE.commaok. Not decided: the frame condition as a whole; refusal to overwrite at top level (a string-value fact)."+levelNote,
 		nil,
-		rulePairAtomic, ruleWalkParent,
+		rulePairAtomic, ruleWalkParent, rulePathSegments,
 		func(p *Prog, r *Report) {
 			in := map[string]bool{}
 			for _, f := range p.scopeFuncs(r, "PRESENCE.commaok", grpMutators[:3]) {
@@ -263,7 +277,7 @@ func init() {
 		panicRules(grpProject))
 
 	register("C13",
-		"Structural clauses of reader-schedule independence: IO.read (every Read result is consumed as the io.Reader contract prescribes: count tested, data used only when n > 0, data before error, (0,nil) retried), IO.bytereader (xml.NewDecoder always gets an io.ByteReader; adaptors read one byte at a time), IO.tee (the raw capture receives exactly the bytes handed to the decoder; Raw functions return the sink's bytes), LOOP.handler (handlers get the decoded value, false stops reading), IO.nobuffer (the caller's reader is never wrapped in a reader that reads ahead), WRAP.fileloop, PANIC.nil on the raw JSON reader, ERR.path. Not decided: equality of decoded Maps with direct decoding; the hand-written JSON scanner's quote/escape logic."+levelNote,
+		"Structural clauses of reader-schedule independence: IO.read (every Read result is consumed as the io.Reader contract prescribes: count tested, data used only when n > 0, data before error, (0,nil) retried), IO.bytereader (xml.NewDecoder always gets an io.ByteReader; adaptors read one byte at a time), IO.tee (the raw capture receives exactly the bytes handed to the decoder; Raw functions return the sink's bytes), LOOP.handler (handlers get the decoded value, false stops reading), IO.nobuffer (the caller's reader is never wrapped in a reader that reads ahead), WRAP.fileloop, JSON.decoder (the stream and file readers decode through NewMapJson's configured decoder only, as direct decoding does), PANIC.nil on the raw JSON reader, ERR.path. Not decided: equality of decoded Maps with direct decoding; the hand-written JSON scanner's quote/escape logic."+levelNote,
 		[]string{"io.Reader / io.ByteReader / io.Writer contracts as documented"},
 		func(p *Prog, r *Report) { ruleIORead(p, r, p.PkgFuncs("mxj")) },
 		func(p *Prog, r *Report) { ruleIOByteReader(p, r, p.PkgFuncs("mxj")) },
@@ -273,6 +287,7 @@ func init() {
 				"mxj.NewMapJsonReader", "mxj.NewMapJsonReaderRaw", "mxj.HandleXmlReader", "mxj.HandleXmlReaderRaw", "mxj.HandleJsonReader", "mxj.HandleJsonReaderRaw"}), "stream decoders")
 		},
 		ruleIOTee, ruleJsonEscape,
+		ruleJsonDecoderFor([]string{"mxj.NewMapJson", "mxj.NewMapJsonReader", "mxj.NewMapJsonReaderRaw", "mxj.HandleJsonReader", "mxj.HandleJsonReaderRaw", "mxj.NewMapsFromJsonFile", "mxj.NewMapsFromJsonFileRaw"}),
 		func(p *Prog, r *Report) {
 			ruleLoopHandler(p, r, []string{"mxj.HandleXmlReader", "mxj.HandleXmlReaderRaw", "mxj.HandleJsonReader", "mxj.HandleJsonReaderRaw"})
 		},
@@ -286,24 +301,26 @@ func init() {
 		})
 
 	register("C14",
-		"Structural clauses of casting: INFL.castflag (the cast flag reaches only cast() and the recursion, so structure cannot depend on it; every cast option is read only on the flag-true path; every return of cast is the identical input string or a successful strconv.Parse* of it), TABLE.naninf (with CastNanInf off all seven spellings strconv.ParseFloat accepts for NaN/Inf are excluded before its result can be returned), cast call-site coverage (attribute, text and simple values of both decoders pass through cast with the decoder's flag). Not decided: that each leaf gets exactly the value its text denotes."+levelNote,
+		"Structural clauses of casting: INFL.castflag (the cast flag reaches only cast() and the recursion, so structure cannot depend on it; every cast option is read only on the flag-true path; every return of cast is the identical input string or a successful strconv.Parse* of it), TABLE.naninf (with CastNanInf off all seven spellings strconv.ParseFloat accepts for NaN/Inf are excluded before its result can be returned), cast call-site coverage (attribute, text and simple values of both decoders pass through cast with the decoder's flag), CAST.input (the string handed to cast is computed from the current token only, never from a value read back from the node being built, which has already been cast). Not decided: that each leaf gets exactly the value its text denotes."+levelNote,
 		[]string{"strconv.ParseFloat documentation (accepted NaN/Inf spellings)"},
-		ruleInflCastFlag, ruleTableNanInf, ruleInflCover, ruleCastParsers)
+		ruleInflCastFlag, ruleTableNanInf, ruleInflCover, ruleCastParsers,
+		func(p *Prog, r *Report) { ruleCastInput(p, r, []string{"mxj.xmlToMapParser", "mxj.xmlSeqToMapParser"}) })
 
 	register("C15",
-		"Panic-obligation discharge over every core function reachable from the decoders, the string-argument APIs and the encoders: PANIC.idx (every index/slice operation is either proven in range by the Go compiler's prove pass or discharged by the zone analysis / a structural rule), PANIC.assert (every single-value type assertion has an operand whose dynamic type set is within the asserted type), PANIC.nil (nil map writes, nil dereferences of module results, method calls on nil errors, calls of nil function variables), PANIC.explicit, and ERR.path on the decoders. Not decided: stack exhaustion on deeply nested input, panics inside the standard library on well-typed arguments, termination of the bulk handlers, 'fails exactly when the tokenizer rejects'."+levelNote,
+		"Panic-obligation discharge over every core function reachable from the decoders, the string-argument APIs and the encoders: PANIC.idx (every index/slice operation is either proven in range by the Go compiler's prove pass or discharged by the zone analysis / a structural rule), PANIC.assert (every single-value type assertion has an operand whose dynamic type set is within the asserted type), PANIC.nil (nil map writes, nil dereferences of module results, method calls on nil errors, calls of nil function variables), PANIC.explicit, WALK.reentry (a walker that calls itself with the same node does so only with a segment tested different from the one that triggered the call: no unbounded recursion on a key named like the wildcard), and ERR.path on the decoders. Not decided: stack exhaustion on deeply nested input, panics inside the standard library on well-typed arguments, termination of the bulk handlers, 'fails exactly when the tokenizer rejects'."+levelNote,
 		nil,
 		panicRules(c15Roots()),
+		func(p *Prog, r *Report) { ruleWalkReentry(p, r, p.scopeFuncs(r, "WALK.reentry", c15Roots())) },
 		func(p *Prog, r *Report) {
 			ruleErr(p, r, concat(grpMapDecode, grpSeqDecode, grpJsonDecode, grpGob, grpBeautify), "decoders")
 		})
 
 	register("C16",
-		"Structural clauses of encoder determinism and variant agreement: ORDER (no order-sensitive effect inside a map range; collected slices sorted before use; the sort key is the map key / sequence number), WRAP.writer (8 writer forms write exactly the encoder's bytes once), WRAP.concat (Maps string forms concatenate per-Map encodings in list order; file forms write exactly the string form), INFL.indent (the indent flag only adds whitespace), TAGS.protocol / TAGS.seqprotocol (in particular: no indentation is written between an element's own text and its end tag, where it would become character data), EFFECT.nondet (no goroutine/time/rand/pool on encoder paths), FWD.variadic/FWD.param (options forwarded), OPT.scope (encoders read only encoder options). Not decided: byte identity between variants beyond the structural identity of the bytes handed on."+levelNote,
+		"Structural clauses of encoder determinism and variant agreement: ORDER (no order-sensitive effect inside a map range; collected slices sorted before use; the sort key is the map key / sequence number), WRAP.writer (8 writer forms write exactly the encoder's bytes once), WRAP.concat (Maps string forms concatenate per-Map encodings in list order; file forms write exactly the string form), INFL.indent (the indent flag only adds whitespace), SEQ.types (every typed read of a '#seq' entry in the sequence encoder accepts both int and float64, so equal MapSeqs are ordered alike however they were built), VALID.coupling (the optional validity check reads a copy and returns the accumulator's bytes untouched, so the document does not depend on the check being on), TAGS.protocol / TAGS.seqprotocol (in particular: no indentation is written between an element's own text and its end tag, where it would become character data), EFFECT.nondet (no goroutine/time/rand/pool on encoder paths), FWD.variadic/FWD.param (options forwarded), OPT.scope (encoders read only encoder options). Not decided: byte identity between variants beyond the structural identity of the bytes handed on."+levelNote,
 		nil,
 		func(p *Prog, r *Report) { ruleOrder(p, r, encoderRoots()) },
 		func(p *Prog, r *Report) { ruleNondet(p, r, encoderRoots()) },
-		ruleWrapWriter, ruleWrapConcat, ruleInflIndent,
+		ruleWrapWriter, ruleWrapConcat, ruleInflIndent, ruleValidCoupling, ruleSeqTypes,
 		ruleTagProtocol, ruleTagProtocolSeq,
 		func(p *Prog, r *Report) {
 			ruleFwdVariadic(p, r, func(n string) bool {
@@ -313,10 +330,10 @@ func init() {
 		func(p *Prog, r *Report) { ruleOptScope(p, r, "MapEncode", "SeqEncode", "SeqEncodeIndent", "Json") })
 
 	register("C17",
-		"The static argument for 'read-only operations never modify their receiver and may run concurrently': EFFECT.recv (for each of the read-only Map/MapSeq/Maps methods, no write instruction in any function reachable from it can target memory reachable from its receiver), EFFECT.global (no function reachable from a non-setter API writes a package variable or memory reachable from one), OWN.fresh (Copy's result reaches no memory of its argument), OPT.writers. Without a write instruction that can reach shared memory there is no schedule that races or modifies the receiver. Not decided: 'results identical to sequential execution' beyond the absence of shared writes; thread-safety of the standard library is trusted."+levelNote,
+		"The static argument for 'read-only operations never modify their receiver and may run concurrently': EFFECT.recv (for each of the read-only Map/MapSeq/Maps methods, no write instruction in any function reachable from it can target memory reachable from its receiver), EFFECT.global (no function reachable from a non-setter API writes a package variable or memory reachable from one), EFFECT.input (no write reachable from a package-level decoder can target the byte slice it is given, append into its spare capacity included: goroutines decoding adjacent documents of one buffer do not interfere), OWN.fresh (Copy's result reaches no memory of its argument), OPT.writers. Without a write instruction that can reach shared memory there is no schedule that races or modifies the receiver. Not decided: 'results identical to sequential execution' beyond the absence of shared writes; thread-safety of the standard library is trusted."+levelNote,
 		[]string{"whole-program inclusion-based points-to analysis (pointsto.go) with the standard-library effect model", "standard library internals are data-race free for distinct values"},
 		func(p *Prog, r *Report) { ruleEffectRecv(p, r, p.readOnlyMethods(), "EFFECT.recv") },
-		ruleEffectGlobal,
+		ruleEffectGlobal, ruleEffectInput,
 		func(p *Prog, r *Report) { ruleOwnFresh(p, r, "mxj.Map.Copy") },
 		ruleOptWriters)
 
@@ -327,9 +344,10 @@ func init() {
 		func(p *Prog, r *Report) { ruleOptScope(p, r) }, ruleInflCastFlag)
 
 	register("C19",
-		"Structural clauses of 'files, gob and Copy read back equal': WRAP.concat (file writers write exactly the string form, which is the concatenation of per-Map encodings), WRAP.fileloop (readers loop on the raw reader over the opened file; exits only by io.EOF or an error return carrying the Maps read so far; every decoded Map is appended), TABLE.gob (Encode/Decode type agreement; container types registered), WRAP.compose + OWN.fresh (Copy), ERR.path on the file and gob functions. Not decided: equality of what is read back; behaviour on truncated files."+levelNote,
+		"Structural clauses of 'files, gob and Copy read back equal': WRAP.concat (file writers write exactly the string form, which is the concatenation of per-Map encodings), WRAP.fileloop (readers loop on the raw reader over the opened file; exits only by io.EOF or an error return carrying the Maps read so far; every decoded Map is appended), TABLE.gob (Encode/Decode type agreement; container types registered), WRAP.compose + OWN.fresh (Copy), JSON.decoder (every JSON decode the reader and file functions reach is the one Decoder of NewMapJson on which UseNumber is set under JsonUseNumber: numbers written from json.Number values are read back as such), ERR.path on the file and gob functions. Not decided: equality of what is read back; behaviour on truncated files."+levelNote,
 		nil,
 		ruleWrapConcat, ruleWrapFileLoop, ruleTableGob, ruleJsonEscape,
+		ruleJsonDecoderFor([]string{"mxj.NewMapJson", "mxj.NewMapJsonReader", "mxj.NewMapJsonReaderRaw", "mxj.HandleJsonReader", "mxj.HandleJsonReaderRaw", "mxj.NewMapsFromJsonFile", "mxj.NewMapsFromJsonFileRaw"}),
 		func(p *Prog, r *Report) {
 			ruleWrapCompose(p, r, []wrapSpec{{"mxj.Map.Copy", []string{"mxj.Map.Json", "mxj.NewMapJson"}, false}})
 		},
